@@ -35,13 +35,27 @@ CLAIMS["C15"] = {
     "note": "finite real order parameters; System.copy is shallow by design, the property speaks about re-assigning fields; z3 trusted",
     "technique": TECH,
 }
+CLAIMS["C09"] = {
+    "level": "other",
+    "text": "run_md -> shoot / wire_fencing executed on symbolic old paths (3..4 frames; 5 thorough), symbolic interfaces, cap, integer "
+            "length limit, shooting index and draws, with a script engine feeding fresh symbolic order values through the real "
+            "add_to_path. For every feasible outcome pattern the solver shows: accept <=> status ACC; an accepted path is valid in its "
+            "ensemble (independent predicate), time-ordered, contains the shooting point, has non-zero own weight; a rejection leaves "
+            "the old path's frames untouched; shooting accepts exactly when the natural trial is valid, within the limit and "
+            "draw <= n_old/n_new; shooting points are never end points. Bounded by path length / limit (stated in evidence).",
+    "design_ref": "DESIGN.md section 3 C09 (H09)",
+    "note": "engine obeys the C12 contract (script engine stub, real add_to_path); position-dependent order parameter (kick modelled "
+            "by a fresh value); floats as reals, int() as exact floor; end frames exactly on an interface accepted (convention clash "
+            "documented); one known finding (frame exactly on the cap) routed through known_findings.jsonl",
+    "technique": TECH,
+}
 PENDING = "check not built yet in this revision (see DESIGN.md for the plan); no claim is made"
 NOT_APPLICABLE = {
     "C01": "statistical convergence of a whole stochastic sampler: no bounded symbolic encoding; its algebraic obligations are decided under C02/C04/C09/C10/C11",
     "C08": "quantifies over crash positions in a trace of OS file-system effects and the outcome of TOML/path parsers on truncated trees: not symbolically executable with the installed tools (fault enumeration is a different technique family)",
     "C19": "every clause is a round trip through C-level text/binary codecs (str.format/float, struct, re, genfromtxt): not executable on symbolic data here",
 }
-for _p in ["C03", "C04", "C05", "C06", "C07", "C09", "C11", "C12", "C13", "C14", "C16", "C17", "C18", "C20"]:
+for _p in ["C03", "C04", "C05", "C06", "C07", "C11", "C12", "C13", "C14", "C16", "C17", "C18", "C20"]:
     if _p not in CLAIMS:
         NOT_APPLICABLE[_p] = PENDING
 NOTES = ("All checks: exit 0 held within the stated bounds; exit 1 + VIOLATION line only for a counterexample that was replayed "
